@@ -1,6 +1,6 @@
 #!/bin/bash
-# usage: tools/keep_seeded.sh <mutant-id (=worktree /tmp/wt-<id>)> <check-id> — confirm a seeded change and store it under /verif/seeded/
-id="$1"; chk="$2"; wt=/tmp/wt-$id; name="${3:-$id}"
+# usage: tools/keep_seeded.sh <id> <check-id> [name-under-seeded] [worktree] — confirm a seeded change and store it under /verif/seeded/
+id="$1"; chk="$2"; name="${3:-$id}"; wt="${4:-/tmp/wt-$id}"
 cd $wt || exit 2
 run_tests() { PYTHONPATH=$wt/src /venv/bin/python -m pytest -q -p no:cacheprovider --timeout=900 --continue-on-collection-errors 2>&1 | tail -1; }
 run_demo() { PYTHONPATH=$wt/src /venv/bin/python $wt/demo_$id.py >/dev/null 2>&1; echo $?; }
@@ -19,10 +19,10 @@ echo "$out" | tail -4 | cut -c1-200
 mkdir -p /verif/seeded/$name
 cp /tmp/keep_$id.diff /verif/seeded/$name/patch.diff
 cp $wt/demo_$id.py /verif/seeded/$name/demo.py
-/venv/bin/python - "$id" "$chk" "$t_with" "$t_without" "$d_with" "$d_without" "$name" <<PY
+/venv/bin/python - "$id" "$chk" "$t_with" "$t_without" "$d_with" "$d_without" "$name" "$wt" <<PY
 import json,sys,subprocess
 id_,chk,tw,two,dw,dwo,name=sys.argv[1:8]
-m=json.load(open('/tmp/wt-%s/meta_%s.json'%(id_,id_)))
+m=json.load(open('%s/meta_%s.json'%(sys.argv[8],id_)))
 out=open('/dev/stdin').read() if False else ""
 m.update({"breaks_property":m.get("property",id_),"checked_with":"./check %s --tier quick (after git -C /repo apply patch.diff; reverted afterwards)"%chk,
  "confirmed":{"tests_with_change":tw.strip(),"tests_without_change":two.strip(),"demo_exit_with_change":int(dw),"demo_exit_without_change":int(dwo),
